@@ -290,8 +290,8 @@ def fail_atomic(rep, F, cg, only=None, rule='FAIL-ATOMIC'):
                             n, edesc, '; '.join(muts), ' [' + problem + ']' if problem else ''), wit)
     rep.analysed['fail_atomic_bodies'] = sorted(armed & set(cands))
     rep.analysed['mutates_only_on_ok'] = sorted(ok_only)
-    rep.floor(rule, 'error exits in mutating bodies', n_err, 10)
-    rep.floor(rule, 'mutation events', n_mut, 12)
+    rep.floor(rule, 'error exits in mutating bodies', n_err, 10 if only is None else 5)
+    rep.floor(rule, 'mutation events', n_mut, 12 if only is None else 4)
     # evidence only: multi-target operations
     other = []
     for n in cands:
